@@ -8,6 +8,7 @@ tier=${1:-quick}; SEED=${2:-20261004}
 export CARGO_NET_OFFLINE=true
 export RUSTFLAGS="--cfg jbonsai_verif"
 mkdir -p logs evidence/parts replays
+"$ROOT/tools/clean_shm.sh" 2>/dev/null
 rm -f evidence/parts/C03.*.json
 T0=$(date +%s.%N)
 rc_viol=0; rc_harness=0
